@@ -87,7 +87,7 @@ func (engC11) Runs(tier string) int {
 	return 40000
 }
 func (engC11) Rule() string {
-	return "seeded swarm histories of 0-24 steps. About a third are container-only histories (NewErrorContainer / zero value / nil pointer x AddError(nil|e) x AddErrorList(fresh lists with nil entries in any position, nil slice, the container's own Errors(), another container's Errors(), a previously passed list reused or scrubbed by the caller)). The rest are table-building histories with injected faults: row.AddError on detached and attached rows, table.AddError/AddErrorList, Row.Add on a separator (misuse), and SimCallbacks registered at any (owner x time x target) that return a unique sentinel error at scripted invocations, at add time (before and after the row is attached) and during render passes (InvokeRenderCallbacks or any renderer). After every step every error list is compared with the model (exactly once, per-source order, nil-or-non-empty, no nil entries). Non-trivial = at least one fault fired; distinct = distinct (model shape, number of expected errors, container sizes)."
+	return "seeded swarm histories of 0-24 steps. About a third are container-only histories (NewErrorContainer / zero value / nil pointer x AddError(nil|e) x AddErrorList(fresh lists with nil entries in any position, nil slice, the container's own Errors(), another container's Errors(), a previously passed list reused or scrubbed by the caller, lists longer than the starting capacity, non-nil error values that hold a nil pointer)). The rest are table-building histories with injected faults: row.AddError on detached and attached rows, table.AddError/AddErrorList, Row.Add on a separator (misuse), and SimCallbacks registered at any (owner x time x target) that return a unique sentinel error at scripted invocations, at add time (before and after the row is attached) and during render passes (InvokeRenderCallbacks or any renderer). After every step every error list is compared with the model (exactly once, per-source order, nil-or-non-empty, no nil entries). Non-trivial = at least one fault fired; distinct = distinct (model shape, number of expected errors, container sizes)."
 }
 func (engC11) Assumptions() []string {
 	return []string{
@@ -295,7 +295,7 @@ func (engC12) Runs(tier string) int {
 	return 30000
 }
 func (engC12) Rule() string {
-	return "seeded swarm histories of 2-30 steps mixing set / set-to-nil (gets are performed on every owner x every key after every step) over owners {table, column 0, columns, rows, live cells, by-value copies of cells (`d := *p`, element of Cells(), range copy), a copy added to a row with Row.Add, column handles taken before growth} and a pool of 14 keys that collide under sloppy comparison (int/int64/int32/uint 1, \"1\", 1.0, true, two distinct pointers to equal structs, equal structs of two named types), interleaved with growth steps (rows of 9-13 cells that re-allocate the column records, late Row.Add that re-allocates a row's cells) and render steps. After every step GetProperty of every owner x key is compared with a per-owner reference map, and the number of links printed by %#v is compared with the number of keys held. Non-trivial = at least one property overwritten or removed; distinct = distinct (shape, per-owner key-count) hashes."
+	return "seeded swarm histories of 2-30 steps mixing set / set-to-nil (gets are performed on every owner x every key after every step) over owners {table, column 0, columns, rows, live cells, by-value copies of cells (`d := *p`, element of Cells(), range copy), a copy added to a row with Row.Add, column handles taken before growth} and a pool of 19 keys that collide under sloppy comparison (int/int64/int32/uint 1, \"1\", 1.0, true, two distinct pointers to equal structs, equal structs of two named types, and keys that are the zero value of their type: 0, \"\", false, an empty struct value, 0.0) plus, in scale scenarios, up to 130 further distinct keys on one owner; values include typed nil pointers and other zero-ish values, which are values and not removals; interleaved with growth steps (rows of 9-13 cells that re-allocate the column records, late Row.Add that re-allocates a row's cells) and render steps. After every step GetProperty of every owner x key is compared with a per-owner reference map, and the number of links printed by %#v is compared with the number of keys held. Non-trivial = at least one property overwritten or removed; distinct = distinct (shape, per-owner key-count) hashes."
 }
 func (engC12) Assumptions() []string {
 	return []string{
@@ -445,7 +445,7 @@ var c13Shapes = [][]Step{
 const c13EnumRuns = 5 * 4 * 3 * 7 * 2 * 2
 
 func (engC13) Rule() string {
-	return fmt.Sprintf("run i < %d enumerates completely (5 owner kinds incl. an unknown owner x 4 times x 3 targets) x 7 small table shapes x {registered before, after the rows exist} x {owner index 0, 1}, each followed by two render passes; later runs are seeded swarm histories of 2-22 steps with one to three marker-setting SimCallback registrations drawn from the full matrix, building steps (incl. Row.Add before/after attach, repeated AddHeaders, separators) and 1-4 render passes (InvokeRenderCallbacks directly or through any renderer). The recorded callback event history of every step is compared with the reference traversal: exact ordered sequence for render passes, exactly-once counts at add time, liveness of the object handed over (pointer identity at invocation + marker property visible through the table afterwards), and the accept/refuse result of every registration. Non-trivial = at least one listed callback event was checked; distinct = distinct (shape, registration set, number of passes) hashes.", c13EnumRuns)
+	return fmt.Sprintf("run i < %d enumerates completely (5 owner kinds incl. an unknown owner x 4 times x 3 targets) x 7 small table shapes x {registered before, after the rows exist} x {owner index 0, 1}, each followed by two render passes; later runs are seeded swarm histories of 2-22 steps with one to three marker-setting SimCallback registrations drawn from the full matrix (some the same callback at two levels, some registered twice in one list, some values of an uncomparable type, some on cell values that are then copied into several rows so that their lists could alias), building steps (incl. Row.Add before/after attach, repeated AddHeaders, separators) and 1-4 render passes (InvokeRenderCallbacks directly or through any renderer); scale scenarios use rows of 258 cells and empty-text items. The recorded callback event history of every step is compared with the reference traversal: exact ordered sequence for render passes, exactly-once counts at add time, liveness of the object handed over (pointer identity at invocation + marker property visible through the table afterwards), and the accept/refuse result of every registration. Non-trivial = at least one listed callback event was checked; distinct = distinct (shape, registration set, number of passes) hashes.", c13EnumRuns)
 }
 func (engC13) Assumptions() []string {
 	return []string{
